@@ -78,7 +78,11 @@ def handle (fn : String) (a : Json) : R Json := do
   | "jws" => pure (ofBool (jwsShaped (← strF a "s")))
   | "post" => do
     let cj ← field a "cfg"
-    let allow ← (← arrF cj "allow").mapM str
+    -- "allow" is the list as *configured* (`introspect_principals`); the resource holds `_normalise_principals` of it
+    let configured ← (← arrF cj "allow").mapM str
+    let enabled0 ← boolF a "enabled"
+    let some allow := (if enabled0 then configure configured else some configured)
+      | return obj [("construct_error", ofBool true)]
     let cfg : Cfg := ⟨allow, ← boolF cj "limiter"⟩
     let kj ← field a "caller"
     let caller : Caller := ⟨← boolF kj "authenticated", ← strF kj "principal"⟩
@@ -95,7 +99,8 @@ def handle (fn : String) (a : Json) : R Json := do
       ("retry_after", retryJson r.retryAfter), ("body_read", ofBool t.bodyRead), ("resolver_calls", ofNat t.resolverCalls)])
   | "serve_seq" => do
     -- one resource instance, a fresh limiter, a history of requests: {allow, per_window, events:[{now, caller, req, outcome}]}
-    let allow ← (← arrF a "allow").mapM str
+    let configured ← (← arrF a "allow").mapM str
+    let some allow := configure configured | return obj [("construct_error", ofBool true)]
     let perWindow ← natF a "per_window"
     let evs ← (← arrF a "events").mapM fun ej => do
       let kj ← field ej "caller"
@@ -111,6 +116,11 @@ def handle (fn : String) (a : Json) : R Json := do
     pure (ofList (rs.map fun (r, t) =>
       obj [("status", ofNat r.status), ("body", bodyJson r.body), ("no_store", ofBool r.noStore),
         ("retry_after", retryJson r.retryAfter), ("body_read", ofBool t.bodyRead), ("resolver_calls", ofNat t.resolverCalls)]))
+  | "configure" => do
+    let configured ← (← arrF a "allow").mapM str
+    pure (match configure configured with
+      | none => Json.null
+      | some l => ofList (l.map ofStr))
   | "constants" =>
     pure (obj [("max_body", ofNat Gen.C36.maxBodyBytes), ("max_token", ofNat Gen.C36.maxTokenChars),
       ("success_keys", ofList (Gen.C36.successKeys.map Json.str)), ("fingerprint", Json.str Gen.C36.sourceFingerprint),
